@@ -215,24 +215,32 @@ def cascade(ctx, R):
             got = classify(kf)
             verdicts.append((cb, [k for k, v in need.items() if got.get(k) != v], ExprBuilder(b).arg(c, 0)))
     if not found:
-        # loop form: the hand-over point is where the pair (or its ids) is pushed / inserted
+        # loop form: `for e in second_copy { if <claimed or taken or no weight> { continue } ...; remaining.push(e) }`.
+        # Every iteration path that reaches the push must have established the three facts.
+        from lib import loop_element_paths, E
         for c in b.find_calls('std::vec::Vec::push'):
-            conds = path_conditions(b, c.bb)
-            if not any(k.kind == 'bool' and k.expr.kind == 'call' and k.expr.name.rsplit('::', 1)[-1] in (
-                    'contains_key', 'contains') for k in conds):
-                continue
-            found = True
-            kf = {}
-            for k in conds:
-                if k.kind == 'bool' and k.truth is not None:
-                    kf['bool:%s:%r' % (k.truth, k.expr)] = ('bool', k.truth, k.expr)
-                elif k.kind == 'discr' and k.variants == {'Some'} and k.expr.has_field('attribute_metric'):
-                    from lib import E
-                    kf['some'] = ('bool', True, E('call', name='is_some', args=[k.expr]))
-            got = classify(kf)
-            src = [x for x in b.find_calls('std::iter::Iterator::next') if b.dominates(x.bb, c.bb)]
-            verdicts.append((b, [k for k, v in need.items() if got.get(k) != v],
-                             ExprBuilder(b).arg(src[-1], 0) if src else None))
+            for h, blks in b.loops().items():
+                if c.bb not in blks:
+                    continue
+                paths = loop_element_paths(b, h, [c.bb])
+                if not any(k.kind == 'bool' and k.expr.kind == 'call' and k.expr.name.rsplit('::', 1)[-1] in (
+                        'contains_key', 'contains') for conds, hit in paths for k in conds):
+                    continue
+                found = True
+                missing = set()
+                for conds, hit in paths:
+                    if not hit:
+                        continue
+                    kf = {}
+                    for k in conds:
+                        if k.kind == 'bool' and k.truth is not None:
+                            kf['bool:%s:%r' % (k.truth, k.expr)] = ('bool', k.truth, k.expr)
+                        elif k.kind == 'discr' and k.variants == {'Some'} and k.expr.has_field('attribute_metric'):
+                            kf['some'] = ('bool', True, E('call', name='is_some', args=[k.expr]))
+                    got = classify(kf)
+                    missing |= {k for k, v in need.items() if got.get(k) != v}
+                src = [x for x in b.find_calls('std::iter::Iterator::next') if x.bb in blks]
+                verdicts.append((b, sorted(missing), ExprBuilder(b).arg(src[-1], 0) if src else None))
     for cb, missing, recv in verdicts:
         n += 1
         ctx.check(not missing, R, cb, 'positional-stage-sees-only-unclaimed-detections-and-free-tracks', '',
@@ -321,14 +329,20 @@ def similarity(ctx, R):
                   'Cosine distance_to_weight is %r (expected 1 - d: best-fit voting treats smaller as closer)' % c)
     vb = ctx.anchor(R, M.HELPER['visual'])
     if vb is not None:
-        for c in vb.find_calls(VKIND + '::distance_to_weight'):
-            conds = path_conditions(vb, c.bb)
-            ok = any(k.kind == 'bool' and k.truth is True and k.expr.kind == 'call' and k.expr.name.endswith('is_ok')
-                     for k in conds)
+        from lib import effective_sites, adaptor_of_closure, subst_upvars
+        for site, c, o in effective_sites(ctx.F, vb, VKIND + '::distance_to_weight'):
+            if o is vb:
+                conds = path_conditions(vb, c.bb)
+                ok = any(k.kind == 'bool' and k.truth is True and k.expr.kind == 'call' and
+                         k.expr.name.endswith('is_ok') for k in conds)
+            else:
+                # `is_ok(d).then(|| distance_to_weight(d))`: the closure runs exactly when the receiver is true
+                apb, ac = adaptor_of_closure(ctx.F, vb, o)
+                ok = ac is not None and ac.name in ('then', 'then_some') and \
+                    ExprBuilder(apb).arg(ac, 0).has_call('is_ok')
             n += 1
             ctx.check(ok, R, vb, 'weight-only-if-is_ok', '', 'a visual weight is produced although is_ok(d) is false / unchecked')
-            e = ExprBuilder(vb)
-            d_arg = e.arg(c, 1)
+            d_arg = subst_upvars(ctx.F, o, ExprBuilder(o).arg(c, 1))
             n += 1
             ctx.check(d_arg.has_call('euclidean') or d_arg.has_call('cosine'), R, vb, 'weight-of-the-computed-distance', '',
                       'distance_to_weight is not applied to the computed feature distance')
